@@ -15,6 +15,10 @@ fn probes(sig: &Sig) -> Vec<String> {
     let mut v: Vec<String> = sig.ctors.iter().map(|c| format!("(print-size {})", c.0)).collect();
     v.extend(sig.funcs.iter().map(|f| format!("(print-size {})", f.0)));
     for t in ["(A)", "(B)", "(G (A))", "(G (B))", "(F (A) (B))"] { v.push(format!("(extract {t})")); }
+    // one instance of every non-nullary constructor over (A) / (B) / the literal 1: whether it can be extracted shows
+    // whether its row is (still) subsumed, also for constructors with base-value columns
+    for (c, (name, ar)) in sig.ctors.iter().enumerate() { if *ar == 0 || ["G", "F"].contains(&name.as_str()) { continue; }
+        for e in ["(A)", "(B)"] { v.push(format!("(extract ({name} {}))", sig.kinds[c].iter().map(|k| if *k { e } else { "1" }).collect::<Vec<_>>().join(" "))); } }
     v.push("(check (= (A) (B)))".into()); v.push("(check (= (G (A)) (G (B))))".into());
     v
 }
